@@ -44,6 +44,18 @@ fn content(pairs: &[Pair], which: &str, is_key: bool) -> Option<Vec<u8>> {
             let n = if parts[2].starts_with('e') { f.len().saturating_sub(k) } else { std::cmp::min(k, f.len()) };
             Some(f[..n].to_vec())
         }
+        w if w.starts_with("chaincut:") => {
+            // chaincut:<leaf><second>:e<k>: a two-certificate file with its last k bytes cut, the cut lying inside the
+            // SECOND block (after its BEGIN line): the leaf block is intact, the file as a whole is a truncation prefix
+            let parts: Vec<&str> = w.split(':').collect();
+            let cs: Vec<char> = parts[1].chars().collect();
+            let second = full(cs[1]);
+            let k: usize = parts[2][1..].parse().unwrap_or(5);
+            let k = k.clamp(5, second.len().saturating_sub(30));
+            let mut v = full(cs[0]); v.extend(second);
+            v.truncate(v.len() - k);
+            Some(v)
+        }
         w if w.starts_with("chain:") => {
             // chain:<leaf><second>: two certificates in one file (leaf first)
             let cs: Vec<char> = w[6..].chars().collect();
@@ -58,6 +70,8 @@ fn content(pairs: &[Pair], which: &str, is_key: bool) -> Option<Vec<u8>> {
 /// generated pair, a key file iff it is the complete key; the pair is valid iff both belong together.
 fn valid_pair(pairs: &[Pair], cert: &str, key: &str) -> Option<(char, bool)> {
     let ids = ['A', 'B', 'C', 'E'];
+    // a file whose later block is damaged is a truncation prefix: not a valid state, whatever its first block is
+    if cert.starts_with("chaincut:") || key.starts_with("chaincut:") { return None; }
     let cb = content(pairs, cert, false)?;
     let kb = content(pairs, key, true)?;
     let cs = String::from_utf8_lossy(&cb).to_string();
@@ -68,7 +82,7 @@ fn valid_pair(pairs: &[Pair], cert: &str, key: &str) -> Option<(char, bool)> {
     match (leaf, k) { (Some(c), Some(k)) if c == k => Some((c, c == 'E')), _ => None }
 }
 
-const STATES: [&str; 14] = ["A", "B", "C", "E", "missing", "empty", "garbage", "trunc:A:e300", "trunc:B:s10", "trunc:B:e3", "trunc:C:e1", "trunc:A:s0", "chain:BA", "chain:CB"];
+const STATES: [&str; 17] = ["A", "B", "C", "E", "missing", "empty", "garbage", "trunc:A:e300", "trunc:B:s10", "trunc:B:e3", "trunc:C:e1", "trunc:A:s0", "chain:BA", "chain:CB", "chaincut:BA:e40", "chaincut:CB:e300", "chaincut:BC:e7"];
 
 impl Group for CertGroup {
     fn default_cases(&self, tier: &str) -> u64 { if tier == "thorough" { 3_000 } else { 150 } }
@@ -82,6 +96,11 @@ impl Group for CertGroup {
         let steps: Vec<usize> = if tier == "thorough" { (0..=900).filter(|k| *k != 2).collect() } else { vec![0, 1, 3, 4, 10, 26, 27, 28, 100, 300, 500, 900] };
         for k in steps {
             v.push(l(vec!["cert init A 1".into(), format!("cert disk trunc:B:e{k} B"), "cert reload".into(), "cert state".into(), format!("cert disk B trunc:B:e{k}"), "cert reload".into(), "cert state".into()]));
+        }
+        // a chain file cut inside its second block (the leaf block intact, the key matching the leaf): a truncation prefix
+        let cuts: Vec<usize> = if tier == "thorough" { (5..=700).step_by(3).collect() } else { vec![5, 27, 28, 29, 60, 300, 500, 700] };
+        for k in cuts {
+            v.push(l(vec!["cert init A 1".into(), format!("cert disk chaincut:BA:e{k} B"), "cert reload".into(), "cert state".into(), "cert disk chain:BA B".into(), "cert reload".into(), "cert state".into()]));
         }
         // a two-file update observed at every point: cert replaced alone, key replaced alone, then complete
         v.push(l(vec!["cert init A 1".into(), "cert disk B A".into(), "cert reload".into(), "cert state".into(), "cert disk B B".into(), "cert reload".into(), "cert state".into()]));
